@@ -177,7 +177,8 @@ def run(chk):
             chk.ob("R-PK-SHIFT", c + "{scatter values}", "values derive from the cleaned array", "ret:clean_out_non_changing#0" in vals.tags,
                    derived="%s" % sorted(t for t in vals.tags if t.startswith("ret:")), loc=puts[0].loc)
         else:
-            chk.ob("R-PK-SHIFT", c + "{scatter}", "one np.put into the full-length series", False, derived="%d" % len(puts), loc=r.fi.loc())
+            chk.ob("R-PK-SHIFT", c + "{scatter}", "one np.put into the full-length series", False, derived="%d" % len(puts), loc=r.fi.loc(),
+                   inconclusive=not puts)          # the scatter is spelled some other way (a helper, an indexed store): not located
         expect(chk, "R-PK-SHIFT", c + ".result", r.ret, length="n", deg={R: 1}, kind=K_ARRAY, loc=r.fi.loc())
     from ..tyob import plateau_cleaner_exact
     plateau_cleaner_exact(chk, "R-PK-SHIFT")
